@@ -274,7 +274,7 @@ def selfMerge (h : K → Nat) (m : HSet K) : Option (HSet K) :=
   | some c =>
     match settleK m.buckets m.buckets.length (m.buckets.length + 1) 0 (headKey c) with
     | none => none
-    | some (i, p) => selfMergeLoop h m.buckets.length (m.buckets.flatten.length + 1) m i p
+    | some (i, p) => selfMergeLoop h m.buckets.length (2 * m.buckets.flatten.length + 2) m i p
 
 /-- `Set(const Array<T>&)` -/
 def sFromList (h : K → Nat) (xs : List K) : HSet K := xs.foldl (sIns h) (empty defaultBuckets)
